@@ -418,3 +418,59 @@ fn validation_report_contract() {
     core::mem::forget(r);
     core::mem::forget(t);
 }
+
+// =========================================================================================
+// C15: the star query is exactly what the stored complex says (delegation contract)
+// =========================================================================================
+use slotmap::KeyData;
+const C_STAR: u64 = 15;
+
+fn stub_star<T, U, V, const D: usize>(_t: &Tds<T, U, V, D>, _v: VertexKey) -> CellKeySet
+where U: DataType, V: DataType {
+    vk_event(C_STAR);
+    let mut s = CellKeySet::default();
+    let n = VK_NCELLS.load(AOrd::Relaxed);
+    if n >= 1 { s.insert(CellKey::from(KeyData::from_ffi(0x1_0000_0001))); }
+    if n >= 2 { s.insert(CellKey::from(KeyData::from_ffi(0x1_0000_0002))); }
+    s
+}
+/// the vertex record the triangulation holds for `v`: present or not, with or without an
+/// incident-cell hint (both are legal for a vertex that sits in cells)
+fn stub_get_vertex<T, U, V, const D: usize>(_t: &Tds<T, U, V, D>, _v: VertexKey) -> Option<&'static Vertex<T, U, D>>
+where T: CoordinateScalar, U: DataType, V: DataType {
+    match VK_AUX.load(AOrd::Relaxed) {
+        0 => None,
+        k => {
+            let mut vx: Vertex<T, U, D> = Vertex::empty();
+            if k == 2 { vx.incident_cell = Some(CellKey::from(KeyData::from_ffi(0x1_0000_0001))); }
+            Some(Box::leak(Box::new(vx)))
+        }
+    }
+}
+
+#[kani::proof]
+#[kani::unwind(6)]
+#[kani::stub(Tds::find_cells_containing_vertex_by_key, stub_star)]
+#[kani::stub(Tds::get_vertex_by_key, stub_get_vertex)]
+fn adjacent_cells_contract() {
+    let t = any_tri();
+    let n: usize = kani::any();
+    kani::assume(n <= 2);
+    vk_reset(0, n);
+    let rec: u64 = kani::any();
+    kani::assume(rec <= 2);
+    VK_AUX.store(rec, AOrd::Relaxed);
+    let v = VertexKey::from(KeyData::from_ffi(0x1_0000_0007));
+    let mut count = 0usize;
+    let mut saw1 = false;
+    let mut saw2 = false;
+    for ck in t.adjacent_cells(v) {
+        count += 1;
+        saw1 = saw1 || ck == CellKey::from(KeyData::from_ffi(0x1_0000_0001));
+        saw2 = saw2 || ck == CellKey::from(KeyData::from_ffi(0x1_0000_0002));
+    }
+    assert!(count == n && saw1 == (n >= 1) && saw2 == (n >= 2),
+        "OBL star-is-stored-star: adjacent_cells(v) yields exactly the cells the stored complex lists for v, whatever the vertex's incident-cell hint says");
+    kani::cover!(n == 2 && rec == 1, "COV vertex in cells without incident-cell hint");
+    core::mem::forget(t);
+}
